@@ -33,6 +33,14 @@ chk("C16", E1, "model_checking",
     "Every (variant, side, position, action) with positions = each network delivery of the handshake plus established-idle / after-data, actions = 1-3 concurrent Close callers with pending Handshake/Read/Write, both sides Close, peer Close, plaintext fatal alert, context deadline, read/write deadline, Close while the endpoint is parked inside an emission holding the write lock, application Close while the reply to the peer's close_notify is being emitted; oracle: every call returns with a closed/EOF/deadline error, close_notify at most once (exactly once for an established open session), peer Read sees EOF, and the bubble ends with no goroutine left. The 'free of data races' clause is NOT decided here (separate -race pass, different technique).",
     "stateless model checking of the implementation: exhaustive placement of lifecycle events at quiescent points and emission holds, with a goroutine-leak oracle")
 
+chk("C10", E3, "exploration",
+    "Bounded-exhaustive differential enumeration of record protection (all 17 DTLS 1.2 and 3 DTLS 1.3 suites x header layouts without/with CID 1,4,8 x padding x payload lengths x epochs x boundary sequence numbers x content types x both writer roles) and of every key-derivation function (P_hash/PRF, master and extended master secret, key block, verify_data, RFC 5705 exporter, premaster constructions, ValueKeyMessage, DTLS 1.3 Expand-Label/Derive-Secret chain, finished key, traffic keys, update secret, CertificateVerify input, HRR message_hash) against an independent RFC-derived reference: library-sealed opens under the reference, byte equality with forced nonce, reference-sealed opens under the library. Live traffic decoding is done by C05/C07/C09.",
+    "bounded-exhaustive enumeration of structural inputs with a differential oracle (independent reference implementation)",
+    "Trusted: the reference implementation /verif/h/refimpl (std + x/crypto primitives only, RFC test vectors); byte values are 4 fixed patterns, structural dimensions exhaustive.")
+chk("C19", E1, "model_checking",
+    "Full product suite class x feature set x exporting side x export point (a,b in 0..3 records per direction) x in-flight mode on real endpoints (serialise, detach silently, resume, 2 records each way, wire-level sequence-number audit), plus every truncation and every byte position x 4 corruptions of 30 (54) serialised states, a catalogue of field-level rewrites, and DTLS 1.3 refusal.",
+    "stateless model checking of the implementation: exhaustive export-point x configuration enumeration and exhaustive single-byte corruption of the serialised state")
+
 props = [json.loads(l) for l in open('/verif/properties.jsonl')]
 PENDING = "check not built yet in this session (planned in DESIGN.md §5); not a claim that the technique cannot apply"
 NA = {}
